@@ -136,8 +136,14 @@ func (res *relayEntrySubmitter) waitForSubmissionEligibility(
 		big.NewInt(int64(groupSize)),
 	).Uint64()
 
+	// Member indexes start from 1 while the submission queue is built over
+	// positions from range [0, groupSize-1], just like the first submitter
+	// index. The member index must be converted to such a position. Otherwise,
+	// for entries divisible by the group size, nobody would be the first in
+	// the queue and the last member would become eligible no sooner than
+	// the relay entry timeout.
 	submissionQueueIndex := calculateSubmissionQueueIndex(
-		uint64(res.index),
+		uint64(res.index)-1,
 		firstSubmitterMemberIndex,
 		uint64(groupSize),
 	)
